@@ -67,8 +67,13 @@ def oracle(name, ib, mb, meta):
         if b.op.startswith('cfg 1'): B = bytes.fromhex(dict(t.split('=', 1) for t in b.op.split()[2:])['mac'])
         if b.op.startswith('failalloc'): faulty = 'clear' not in b.op
         if b.fault or not b.op.startswith('frame'): continue
-        if faulty: continue
         ctx, fr = frame_of(b); d = dec(rxview(b, fr))
+        if faulty:
+            # while an allocation is made to fail nothing is demanded; but what B does report then counts as reported
+            if ctx == 1 and d['tos'] == 0 and d['opc'] == 6:
+                sn = sends_of(b); q = qresp_fields(sn[0][2]) if sn else None
+                for (t, rs, es, ed) in (q['descs'] if q else []): expect.pop((es, rs), None)
+            continue
         if ctx == 0 and d['tos'] == 0 and d['opc'] == 2:
             n = (fr[32] << 8) | fr[33]
             for j in range(n):
